@@ -283,6 +283,14 @@ func (h *harness) runState(sf *StateFile, b budget, seed int64) {
 	// 2. rejected records
 	alpha := h.meta.Alphabet
 	if sf.Full && len(sf.Whys) == len(alpha) {
+		// the verdict array and the list of accepted records come from the same model evaluation: cross-check
+		for k := range alpha {
+			if sf.Whys[k] == "ok" {
+				if _, ok := accepted[recKey(Rec{A: alpha[k].A, Cs: []Content{alpha[k].C}})]; !ok {
+					h.rep.DriftNote("[%s] %s: verdict array says ok for %v but the record is not in the accepted list", h.cfg, sf.file, alpha[k])
+				}
+			}
+		}
 		var pick []int
 		if sf.Depth <= b.allDepth {
 			for k := range alpha {
@@ -378,7 +386,7 @@ func (h *harness) runState(sf *StateFile, b budget, seed int64) {
 
 func tierBudget() budget {
 	if vfutil.Thorough() {
-		return budget{allDepth: vfutil.EnvInt("VERIF_ACL_ALLDEPTH", 1), randPerSt: 60, batchRand: 200, batchAccMax: 0, builderMax: 12}
+		return budget{allDepth: vfutil.EnvInt("VERIF_ACL_ALLDEPTH", 1), randPerSt: 60, batchRand: 200, batchAccMax: 1500, builderMax: 6}
 	}
 	return budget{allDepth: vfutil.EnvInt("VERIF_ACL_ALLDEPTH", 0), randPerSt: 25, batchRand: 80, batchAccMax: 400, builderMax: 4}
 }
